@@ -128,13 +128,38 @@ def backref_programs():
                 yield {'prog': O('cat', cap, O('enc', r, tail)), 'form': 'm', 'w': 'Wref'}
                 yield {'prog': O('cat', cap, O('alt', O('cat', r, tail), Lx('z'))), 'form': 'c', 'w': 'Wref'}
                 yield {'prog': O('cat', cap, O('fol', r, tail)), 'form': 'c', 'w': 'Wref'}
+            for tail in (Lx('0'), Lx('7x')):
+                for pre in (Lx('\\'), Lx('q\\\\'), Lx('a\\')):
+                    for f in 'cmo':
+                        yield {'prog': O('cat', cap, pre, r, tail), 'form': f, 'w': 'Wref'}
+                    yield {'prog': O('cat', cap, O('enc', tail, O('cat', pre, r))), 'form': 'c', 'w': 'Wref'}
+            for e in (G.E(0), G.E(2), G.E(4)):
+                yield {'prog': O('enc', O('cat', cap, Lx('-'), r), e), 'form': 'c', 'w': 'Wref'}
+                yield {'prog': O('enc', O('cat', cap, Lx('-'), r), e), 'form': 'm', 'w': 'Wref'}
+                yield {'prog': O('cat', e, O('cat', cap, r), left=True), 'form': 'm', 'w': 'Wref'}
+                yield {'prog': O('enc', e, O('cat', cap, r)), 'form': 'c', 'w': 'Wref'}
+                yield {'prog': O('enc', O('cat', cap, r), e, Lx('#')), 'form': 'c', 'w': 'Wref'}
             for q in (O('ex', r, n=2), O('plus', r), O('opt', r), O('q', r, n=1, m=3)):
                 yield {'prog': O('cat', cap, q, Lx('0')), 'form': 'c', 'w': 'Wref'}
                 yield {'prog': O('cat', cap, q), 'form': 'm', 'w': 'Wref'}
 
 
+def many_groups_programs():
+    """ten and more capturing groups, two-digit back references followed by digits"""
+    O, Lx = G.OPN, G.L
+    caps = [O('cap', Lx(chr(ord('a') + i))) for i in range(12)]
+    for n in (10, 11, 12):
+        for r in (10, n):
+            for tail in (Lx('5'), Lx('0'), Lx('9'), Lx('17'), Lx('x'), G.CLS('AnyDigit')):
+                for f in 'cmo':
+                    yield {'prog': O('cat', *(caps[:n] + [{'o': 'bref', 'r': r}, tail])), 'form': f, 'w': 'Wref2'}
+                yield {'prog': O('cat', O('cat', *caps[:n]), O('enc', tail, {'o': 'bref', 'r': r})), 'form': 'c', 'w': 'Wref2'}
+                yield {'prog': O('cat', O('cat', *caps[:n]), O('cat', {'o': 'bref', 'r': r}, tail)), 'form': 'c', 'w': 'Wref2'}
+
+
 def wl_c02(tier, seed, shard, nshards):
     yield from take(backref_programs(), shard, nshards)
+    yield from take(many_groups_programs(), shard, nshards)
     yield from take(G.w3_depth1(), shard, nshards)
     r = shard_rnd(seed, shard, 1)
     if tier == 'quick':
@@ -147,6 +172,7 @@ def wl_c02(tier, seed, shard, nshards):
 
 def wl_c03(tier, seed, shard, nshards):
     yield from take(backref_programs(), shard, nshards)
+    yield from take(many_groups_programs(), shard, nshards)
     yield from take(G.w_invalid(), shard, nshards)
     yield from take(G.w_stress(), shard, nshards)
     yield from take(G.w3_depth1(), shard, nshards)
@@ -196,7 +222,9 @@ G_UNARY = {'opt', 'star', 'plus', 'q', 'ex', 'al', 'am', 'cap', 'grp', 'mas', 'm
 def wl_c05(tier, seed, shard, nshards):
     empties = [G.E(k) for k in range(12)]
     basis = [G.L('a'), G.L('a|b'), G.L('$'), G.CLS('AnyLetter'), G.OPN('alt', G.L('x'), G.L('yz')),
-             G.OPN('cap', G.L('a'), name='g1'), G.OPN('mas', G.L('a')), G.OPN('plus', G.L('ab'))]
+             G.OPN('cap', G.L('a'), name='g1'), G.OPN('mas', G.L('a')), G.OPN('plus', G.L('ab')),
+             G.OPN('cat', G.OPN('cap', G.L('ab')), G.L('-'), {'o': 'bref', 'r': 1}),
+             G.OPN('cat', G.OPN('cap', G.L('a'), name='g2'), {'o': 'bref', 'r': 'g2'}), G.L('a\\'), G.L('7')]
 
     def det():
         for e in empties:
@@ -217,6 +245,7 @@ def wl_c05(tier, seed, shard, nshards):
                 yield {'prog': G.OPN('fol', x, e, x), 'form': 'c', 'w': 'W3e'}
                 yield {'prog': G.OPN('nfol', x, x, e), 'form': 'c', 'w': 'W3e'}
     yield from take(det(), shard, nshards)
+    yield from take(backref_programs(), shard, nshards)
     r = shard_rnd(seed, shard, 5)
     n = (6000 if tier == 'quick' else 60000) // nshards
     for item in G.w4_random(r, n, p_empty=0.25):
